@@ -12,6 +12,7 @@ type MonFlags struct {
 	Ctx bool // per live context: batch start heights, steadiness, largest total    — C10
 	CB  bool // response callbacks seen per (context, batch)                       — C12
 	Kill bool // contexts for which a kill succeeded                                — C16
+	Dis  bool // block time at which each binding last became unavailable            — C03
 }
 
 type ReqMon struct {
@@ -40,12 +41,13 @@ type Mon struct {
 	Ctx map[string]CtxMon  `json:"ctx,omitempty"`
 	CB  map[string]int     `json:"cb,omitempty"`
 	Killed map[string]bool `json:"killed,omitempty"`
+	Dis    map[string]int64 `json:"dis,omitempty"`
 }
 
 func NewMon() *Mon { return &Mon{} }
 
 func (m *Mon) Bytes() []byte {
-	if len(m.Vol) == 0 && len(m.Req) == 0 && len(m.Ctx) == 0 && len(m.CB) == 0 && len(m.Killed) == 0 {
+	if len(m.Vol) == 0 && len(m.Req) == 0 && len(m.Ctx) == 0 && len(m.CB) == 0 && len(m.Killed) == 0 && len(m.Dis) == 0 {
 		return nil
 	}
 	b, err := json.Marshal(m) // map keys are emitted sorted: canonical
@@ -92,6 +94,12 @@ func (m *Mon) clone() *Mon {
 			c.CB[k] = v
 		}
 	}
+	if len(m.Dis) > 0 {
+		c.Dis = make(map[string]int64, len(m.Dis))
+		for k, v := range m.Dis {
+			c.Dis[k] = v
+		}
+	}
 	if len(m.Killed) > 0 {
 		c.Killed = make(map[string]bool, len(m.Killed))
 		for k, v := range m.Killed {
@@ -107,7 +115,7 @@ func volKey(consumer []byte, svc string, prov []byte) string {
 
 // Update computes the monitor of the successor from observed facts only.
 func (m *Mon) Update(f MonFlags, sc *Scenario, pre *View, a Action, res *StepResult, post *View) *Mon {
-	if !f.Vol && !f.Req && !f.Ctx && !f.CB && !f.Kill {
+	if !f.Vol && !f.Req && !f.Ctx && !f.CB && !f.Kill && !f.Dis {
 		return m
 	}
 	n := m.clone()
@@ -187,6 +195,23 @@ func (m *Mon) Update(f MonFlags, sc *Scenario, pre *View, a Action, res *StepRes
 		for id := range n.Ctx {
 			if _, ok := post.Ctxs[id]; !ok {
 				delete(n.Ctx, id)
+			}
+		}
+	}
+	if f.Dis {
+		for _, br := range post.Bindings {
+			b := br.B
+			k := bkey(b.ServiceName, b.Provider)
+			pb := pre.Binding(b.ServiceName, b.Provider)
+			wasAvail := pb != nil && pb.Available
+			switch {
+			case b.Available:
+				delete(n.Dis, k)
+			case wasAvail || pb == nil:
+				if n.Dis == nil {
+					n.Dis = map[string]int64{}
+				}
+				n.Dis[k] = pre.S.Time
 			}
 		}
 	}
